@@ -158,6 +158,10 @@ func gen2(t *rapid.T) *scen.Case {
 	if rapid.IntRange(0, 4).Draw(t, "corrupt") == 0 {
 		c.CorruptVol = rapid.IntRange(1, 4).Draw(t, "cv")
 	}
+	if rapid.IntRange(0, 5).Draw(t, "rmdir") == 0 {
+		// the sub-directory of a protected file is gone: its rewrite fails after other files may have been written
+		c.RmDirOf = rapid.IntRange(1, len(c.Files)).Draw(t, "rmdirof")
+	}
 	if rapid.IntRange(0, 5).Draw(t, "sibling") == 0 {
 		// recovery files of a sibling set with the same set ID: Repair reconstructs foreign bytes and must refuse to write them
 		c.SiblingVols = true
@@ -210,6 +214,9 @@ func TestCheck(t *testing.T) {
 			}
 			if c.P2.CorruptVol > 0 {
 				rec.Class("corrupt-volume")
+			}
+			if c.P2.RmDirOf > 0 {
+				rec.Class("sub-directory-removed")
 			}
 			if c.P2.SiblingVols {
 				rec.Class("sibling-set-volumes(same set id)")
